@@ -247,6 +247,7 @@ fn eval(e: &syn::Expr, env: &Env) -> Result<Val, String> {
                     Val::Oid(a) => Ok(Val::Oid(a)),
                     o => Err(format!("oid arg {o:?}")),
                 },
+                (2, "BitString", "new") if args.is_empty() => Ok(Val::Bits(vec![])),
                 (2, _, "new") => Ok(Val::Seq(args.iter().map(|a| eval(a, env)).collect::<Result<Vec<_>, _>>()?)),
                 (2, _, alt) if args.len() == 1 => Ok(Val::Choice(alt.to_string(), Box::new(eval(args[0], env)?))),
                 (1, _, _) if args.len() == 1 => eval(args[0], env), // newtype wrapper
